@@ -172,22 +172,17 @@ Proof. exact PAmf0.cost_amf0_flat_linear. Qed.
 Theorem c07_cost_linear_rtmp_read_message : forall fuel s i,
   CRtmp.cost_read_message fuel s i <= 4 * CRtmp.ibytes i + Verif.Model.RtmpChunk.in_chunk s + 1.
 Proof. exact PRtmp.cost_read_message_linear. Qed.
-(* JSON+: what holds.  ONE call of the split function is linear in the scanner window it is given
-   (all four start markers are searched through the whole window, then the end marker) ... *)
+(* JSON+ (after fix 73a5c57: firstMatch walks the window once and stops at the first start marker).
+   ONE call of the split function is linear in the scanner window it is given ... *)
 Theorem c07_cost_linear_jsonplus_split : forall data at_eof, CJson.cost_split data at_eof <= 5 * lenN data + 6.
 Proof. exact PJson.cost_split_linear. Qed.
-(* ... but every token re-scans the window: a document held in one window costs at most
-   (tokens + 1) * (5 * window + 6); with the whole document as the window this is quadratic, and
-   that quadratic growth is attained (c07_jsonplus_window_rescan_refuted below).  The real
-   scanner's window is its buffer (4096 bytes, doubled only for a single token that does not fit),
-   so the reader is linear in the input with a constant proportional to max(4096, 2 * longest token). *)
-Theorem c07_cost_jsonplus_strip_window : forall d, CJson.cost_strip d <= (lenN d + 2) * (5 * lenN d + 6).
-Proof. exact PJson.cost_strip_bound. Qed.
-(* the per-token rescan is attained: with the whole document as the window no linear bound holds
-   (family: m line comments, cost >= 3m(m+1)/2 on 3m bytes -- the apostrophe marker is searched
-   through the whole remaining window for every token) *)
-Theorem c07_jsonplus_window_rescan_refuted : forall k : N, exists d, wf_bytes d /\ CJson.cost_strip d > k * lenN d.
-Proof. exact PJson.cost_strip_quadratic_refuted. Qed.
+(* ... and a document held in one window is stripped in linear time, 6 steps per byte: a split call
+   that delivers a token costs at most 4 steps per byte it advances over.  (Before the fix every
+   token searched all four start markers through the whole window: quadratic, found by this kit,
+   prompts/c07_finding_json.md.)  Not covered: a transport that delivers tiny reads makes
+   bufio.Scanner re-run split on the whole pending token after every read. *)
+Theorem c07_cost_linear_jsonplus_strip : forall d, CJson.cost_strip d <= 6 * lenN d + 6.
+Proof. exact PJson.cost_strip_linear. Qed.
 Close Scope N_scope.
 
 (* ------------------------------------------------------------------------------------------
@@ -346,7 +341,7 @@ Proof. exact Verif.Proofs.Amf0Cost.amf0_cost_quadratic_refuted. Qed.
 
 (* Assumptions of EVERY theorem above, in one traversal: the tuple below mentions each of them, so the set
    printed is the union of their assumptions (one `Print Assumptions` per theorem costs 0.4 s each -- 20 s per
-   check run for this file -- and prints the same line 75 times). *)
+   check run for this file -- and prints the same line 74 times). *)
 Definition c07_all_theorems :=
   (c07_amf0_marker_String_total,
   (c07_amf0_Discovery_total,
@@ -395,8 +390,7 @@ Definition c07_all_theorems :=
   (c07_cost_linear_amf0_flat,
   (c07_cost_linear_rtmp_read_message,
   (c07_cost_linear_jsonplus_split,
-  (c07_cost_jsonplus_strip_window,
-  (c07_jsonplus_window_rescan_refuted,
+  (c07_cost_linear_jsonplus_strip,
   (c07_amf0_dec_total,
   (c07_rtmp_read_total,
   (c07_rtmp_decode_message_total,
@@ -422,5 +416,5 @@ Definition c07_all_theorems :=
   (c07_amf0_dec_returns,
   (c07_avc_sample_returns,
   (c07_flv_tags_return,
-  c07_amf0_cost_refuted)))))))))))))))))))))))))))))))))))))))))))))))))))))))))))))))))))))))))).
+  c07_amf0_cost_refuted))))))))))))))))))))))))))))))))))))))))))))))))))))))))))))))))))))))))).
 Print Assumptions c07_all_theorems.
